@@ -1,5 +1,5 @@
 """C06 — conversions stay inside caller buffers and honour the read/written contract."""
-import r_handle
+import r_handle, r_inputempty
 
 MANIFEST = {
     'category': 'other',
@@ -17,6 +17,8 @@ CONFIGS = {'quick': ['default', 'simd'], 'thorough': ['default', 'simd', 'noallo
 def run(rep, facts, tier):
     for c, f in facts.items():
         r_handle.run(rep, f, c)
+        n = r_inputempty.run(rep, f, c, 'R-INPUTEMPTY')
+        rep.floor('R-INPUTEMPTY', 'InputEmpty constructions', n, 80, c)
     return ('other',
             'Structural part of C06 decided from MIR: (D1) R-HANDLE — every store into a converter destination goes '
             'through a linear handle whose construction is dominated by a space test proving at least as many units '
